@@ -294,8 +294,105 @@ func isWriteAccess(fa *ssa.FieldAddr) bool {
 	return false
 }
 
+// spawnWiring: the goroutines a function starts run only the stages its contract names
+// ("spawns[Cxx] f, g"): which stage is attached to which sink is decided here, the stages
+// themselves by their own contracts.
+func (e *Engine) spawnWiring(prop string) []*Oblig {
+	var out []*Oblig
+	probe := &Unit{prop: prop}
+	for _, k := range e.lib.sortedContractKeys() {
+		ct := e.lib.Contracts[k]
+		fn := e.fnByKey[k]
+		if fn == nil {
+			continue
+		}
+		for _, sp := range ct.Spawns {
+			if !probe.active(sp.Props) {
+				continue
+			}
+			allowed := map[string]bool{}
+			for _, n := range sp.Names {
+				allowed[n] = true
+			}
+			var problems []string
+			n := 0
+			for _, b := range fn.Blocks {
+				for _, ins := range b.Instrs {
+					g, ok := ins.(*ssa.Go)
+					if !ok {
+						continue
+					}
+					n++
+					callee := g.Call.StaticCallee()
+					if callee == nil {
+						if g.Call.IsInvoke() {
+							problems = append(problems, fmt.Sprintf("%s: goroutine started through an interface method", e.pos(ins)))
+						} else if mc, isMC := g.Call.Value.(*ssa.MakeClosure); isMC {
+							callee, _ = mc.Fn.(*ssa.Function)
+						}
+					}
+					if callee == nil {
+						problems = append(problems, fmt.Sprintf("%s: goroutine with a callee that cannot be resolved", e.pos(ins)))
+						continue
+					}
+					var stages []*ssa.Function
+					if callee.Parent() != nil { // function literal: the repository functions it calls
+						for _, cb := range callee.Blocks {
+							for _, ci := range cb.Instrs {
+								var cc *ssa.CallCommon
+								switch x := ci.(type) {
+								case *ssa.Call:
+									cc = &x.Call
+								case *ssa.Defer:
+									cc = &x.Call
+								case *ssa.Go:
+									cc = &x.Call
+								}
+								if cc == nil {
+									continue
+								}
+								if c := cc.StaticCallee(); c != nil && e.inRepoStrict(c) {
+									stages = append(stages, c)
+								}
+							}
+						}
+					} else {
+						stages = []*ssa.Function{callee}
+					}
+					for _, st := range stages {
+						if !allowed[st.Name()] {
+							problems = append(problems, fmt.Sprintf("%s: the goroutine started here runs %s, which is not one of the stages the contract names (%s)", e.pos(ins), st.Name(), strings.Join(sp.Names, ", ")))
+						}
+					}
+				}
+			}
+			o := structOblig("spawn-wiring/"+shortKey(k), "spawn-wiring",
+				fmt.Sprintf("every goroutine %s starts (%d go statements) runs only the stages its contract names: %s", fn.Name(), n, strings.Join(sp.Names, ", ")),
+				[]string{prop}, problems)
+			o.Pos = sp.Where
+			out = append(out, o)
+		}
+	}
+	return out
+}
+
 func (e *Engine) pipelineObligations(prop string) []*Oblig {
 	var out []*Oblig
+	out = append(out, e.spawnWiring(prop)...)
+	switch prop {
+	case "C07", "C15":
+		out = append(out, e.lockRelease(prop, e.coneOf(extraRoots["C07"]), "the framing, decoding and display cone")...)
+	}
+	switch prop {
+	case "C18", "C19":
+		var fns []*ssa.Function
+		for _, fn := range e.repoFunctions() {
+			if fn.Pkg != nil && strings.Contains(fn.Pkg.Pkg.Path(), "/apps/proxy") {
+				fns = append(fns, fn)
+			}
+		}
+		out = append(out, e.lockRelease(prop, fns, "the proxy packages")...)
+	}
 	switch prop {
 	case "C18", "C19":
 		out = append(out, e.lockHeld(prop)...)
@@ -675,4 +772,103 @@ func (e *Engine) storesInto(t types.Type, spawner *ssa.Function, goIns *ssa.Go) 
 		}
 	}
 	return ""
+}
+
+// ---------------------------------------------------------------- lock-release
+
+// mutexOp classifies a call of sync.(*Mutex|*RWMutex).{Lock,RLock,Unlock,RUnlock} and returns a
+// key for the mutex it is applied to.
+func mutexOp(cc *ssa.CallCommon) (op string, key string, ok bool) {
+	callee := cc.StaticCallee()
+	if callee == nil || callee.Pkg == nil || callee.Pkg.Pkg.Path() != "sync" || len(cc.Args) == 0 {
+		return "", "", false
+	}
+	switch callee.Name() {
+	case "Lock", "RLock", "Unlock", "RUnlock":
+	default:
+		return "", "", false
+	}
+	recv := cc.Args[0]
+	var describe func(v ssa.Value) string
+	describe = func(v ssa.Value) string {
+		switch x := v.(type) {
+		case *ssa.UnOp:
+			return "*" + describe(x.X)
+		case *ssa.FieldAddr:
+			return describe(x.X) + "." + fmt.Sprint(x.Field)
+		case *ssa.Parameter, *ssa.FreeVar, *ssa.Global:
+			return x.Name()
+		}
+		return v.Name()
+	}
+	return callee.Name(), describe(recv), true
+}
+
+// lockRelease: every Lock/RLock is released on every path to a return - by a deferred unlock
+// registered on that path, or by an explicit unlock - so that the next caller cannot block for good.
+func (e *Engine) lockRelease(prop string, fns []*ssa.Function, what string) []*Oblig {
+	var problems []string
+	nlocks := 0
+	for _, fn := range fns {
+		for _, b := range fn.Blocks {
+			for idx, ins := range b.Instrs {
+				c, isCall := ins.(*ssa.Call)
+				if !isCall {
+					continue
+				}
+				op, key, ok := mutexOp(&c.Call)
+				if !ok || (op != "Lock" && op != "RLock") {
+					continue
+				}
+				nlocks++
+				want := "Unlock"
+				if op == "RLock" {
+					want = "RUnlock"
+				}
+				// walk forward from the lock; a path ends at an explicit or deferred matching unlock
+				type pos struct {
+					b *ssa.BasicBlock
+					i int
+				}
+				seen := map[*ssa.BasicBlock]bool{}
+				stack := []pos{{b, idx + 1}}
+				leaked := false
+				for len(stack) > 0 && !leaked {
+					p := stack[len(stack)-1]
+					stack = stack[:len(stack)-1]
+					released := false
+					for i := p.i; i < len(p.b.Instrs) && !released; i++ {
+						switch x := p.b.Instrs[i].(type) {
+						case *ssa.Call:
+							if o2, k2, ok2 := mutexOp(&x.Call); ok2 && o2 == want && k2 == key {
+								released = true
+							}
+						case *ssa.Defer:
+							if o2, k2, ok2 := mutexOp(&x.Call); ok2 && o2 == want && k2 == key {
+								released = true
+							}
+						case *ssa.Return:
+							leaked = true
+							released = true
+						}
+					}
+					if released {
+						continue
+					}
+					for _, s := range p.b.Succs {
+						if !seen[s] {
+							seen[s] = true
+							stack = append(stack, pos{s, 0})
+						}
+					}
+				}
+				if leaked {
+					problems = append(problems, fmt.Sprintf("%s: %s can return while still holding the %s taken here", e.pos(ins), fn.Name(), strings.ToLower(op)))
+				}
+			}
+		}
+	}
+	return []*Oblig{structOblig("lock-release/"+what, "lock-release",
+		fmt.Sprintf("every mutex locked in %s (%d lock sites) is unlocked again, explicitly or by a deferred call, on every path to a return", what, nlocks),
+		[]string{prop}, problems)}
 }
